@@ -51,7 +51,7 @@ pub enum EqVariant {
 
 #[derive(Serialize, Deserialize, Clone, Debug, PartialEq)]
 pub enum CtorCase {
-    Build { kind: CtorKind, c: Dim, r: Dim, delta: i8, tracked: bool },
+    Build { kind: CtorKind, c: Dim, r: Dim, delta: i8, tracked: bool, #[serde(default)] zst: bool },
     FromView { cols: u8, rows: u8, m: [u8; 4], mutable: bool, nested: Option<[u8; 4]>, tracked: bool },
     Convert { cols: u8, rows: u8, what: Conv, take: (u8, u8), tracked: bool },
     EqHash { cols: u8, rows: u8, variant: EqVariant },
@@ -95,7 +95,7 @@ fn build_case<E: Elem + Clone + Default>(kind: CtorKind, c: usize, r: usize, del
                     let want_key = if kind == CtorKind::New { 0 } else { 3 };
                     let mut seen = std::collections::HashSet::new();
                     for e in t.data() {
-                        ensure!(e.key() == want_key, format!("{}/wrong-value", name), "{}({},{}): a cell holds key {} instead of {}", name, c, r, e.key(), want_key);
+                        ensure!(E::ZST || e.key() == want_key, format!("{}/wrong-value", name), "{}({},{}): a cell holds key {} instead of {}", name, c, r, e.key(), want_key);
                         if E::TRACKED {
                             ensure!(seen.insert(e.id()) && elem::is_live(e.id()), format!("{}/cells-not-independent", name), "{}({},{}): a cell is shared or dead", name, c, r);
                         }
@@ -402,9 +402,12 @@ fn eq_case(cols: usize, rows: usize, variant: EqVariant, ctx: &mut Ctx) -> Verdi
 
 pub fn exec(k: &CtorCase, ctx: &mut Ctx) -> Verdict {
     match k {
-        CtorCase::Build { kind, c, r, delta, tracked } => {
+        CtorCase::Build { kind, c, r, delta, tracked, zst } => {
             ctx.class(&format!("{:?}", kind));
-            if *tracked {
+            if *zst && !matches!(kind, CtorKind::ViewNew | CtorKind::ViewMutNew) {
+                ctx.class("zero-sized-element");
+                build_case::<crate::elem::Zs>(*kind, c.get(), r.get(), *delta, ctx)
+            } else if *tracked {
                 build_case::<Tr>(*kind, c.get(), r.get(), *delta, ctx)
             } else {
                 build_case::<u32>(*kind, c.get(), r.get(), *delta, ctx)
@@ -433,7 +436,7 @@ impl Prop for C20 {
     type Case = CtorCase;
     const ID: &'static str = "C20";
     fn rule() -> &'static str {
-        "constructors: every (cols, rows) from {0..6, 2^32, 2^32+1, 2^62, 2^63, usize::MAX/2, usize::MAX/2+1, usize::MAX-1, usize::MAX}^2 x buffer lengths product + {-1,0,1,7} x {new, init, from_vec, from_box, default, with_capacity, TooDeeView::new, TooDeeViewMut::new} x {u32, drop-tracked element}; legal <=> (c==0)==(r==0) and c*r does not overflow and the buffer fits (== for owned, >= for views) => exact dimensions and row-major contents (default value / given value / given buffer / slice addresses), otherwise panic (new/init are only given huge dimensions in combinations that must be rejected, so nothing large is ever allocated). From<view> / From<view_mut> of every window embedding (strided, nested) of shapes (0..=4)^2: dimensions and row-major cells of the view, fresh elements, parent untouched. Conversions: Vec / Box<[T]> / into_iter (both ends) / AsRef / AsMut in row-major order; clone equal, independent (fresh elements, mutating either leaves the other). Eq/Hash pairs: identical, same flat data with exchanged / flattened dimensions, one cell changed, different capacity, extra row / column, empty vs emptied. a == b <=> dimensions and cells equal; a == b => equal hashes. Non-trivial = a rejected request, or a strided From<view>, or a pair differing only in shape. Distinct = distinct case."
+        "constructors: every (cols, rows) from {0..6, 2^32, 2^32+1, 2^62, 2^63, usize::MAX/2, usize::MAX/2+1, usize::MAX-1, usize::MAX}^2 x buffer lengths product + {-1,0,1,7} x {new, init, from_vec, from_box, default, with_capacity, TooDeeView::new, TooDeeViewMut::new} x {u32, drop-tracked element, zero-sized element}; legal <=> (c==0)==(r==0) and c*r does not overflow and the buffer fits (== for owned, >= for views) => exact dimensions and row-major contents (default value / given value / given buffer / slice addresses), otherwise panic (new/init are only given huge dimensions in combinations that must be rejected, so nothing large is ever allocated). From<view> / From<view_mut> of every window embedding (strided, nested) of shapes (0..=4)^2: dimensions and row-major cells of the view, fresh elements, parent untouched. Conversions: Vec / Box<[T]> / into_iter (both ends) / AsRef / AsMut in row-major order; clone equal, independent (fresh elements, mutating either leaves the other). Eq/Hash pairs: identical, same flat data with exchanged / flattened dimensions, one cell changed, different capacity, extra row / column, empty vs emptied. a == b <=> dimensions and cells equal; a == b => equal hashes. Non-trivial = a rejected request, or a strided From<view>, or a pair differing only in shape. Distinct = distinct case."
     }
     fn bound(_t: Tier) -> String {
         "exhaustive: 15x15 dimension pairs x 4 buffer deltas x 8 constructors x 2 element types; From<view>: shapes (0..=4)^2 x margins {0,1,2}^2x{0,1}^2 x view/view_mut x nested; conversions and Eq/Hash pairs: shapes (0..=5)^2".into()
@@ -449,8 +452,9 @@ impl Prop for C20 {
                             continue;
                         }
                         for tracked in [false, true] {
-                            emit(CtorCase::Build { kind, c, r, delta, tracked });
+                            emit(CtorCase::Build { kind, c, r, delta, tracked, zst: false });
                         }
+                        emit(CtorCase::Build { kind, c, r, delta, tracked: false, zst: true });
                     }
                 }
             }
@@ -501,7 +505,7 @@ impl Prop for C20 {
         let variant = prop_oneof![Just(EqVariant::Identical), Just(EqVariant::Transposed), Just(EqVariant::Flattened), any::<u16>().prop_map(EqVariant::OneCellChanged), Just(EqVariant::DifferentCapacity), Just(EqVariant::ExtraRow), Just(EqVariant::ExtraCol), Just(EqVariant::EmptyVsEmpty)];
         let conv = prop_oneof![Just(Conv::IntoVec), Just(Conv::IntoBox), Just(Conv::IntoIter), Just(Conv::AsRefs), Just(Conv::Clone), Just(Conv::ViewFromViewMut)];
         prop_oneof![
-            4 => (kind, any_dim(), any_dim(), prop_oneof![5 => Just(0i8), 1 => Just(-1i8), 1 => Just(1i8), 1 => Just(7i8), 1 => Just(-3i8)], any::<bool>()).prop_map(|(kind, c, r, delta, tracked)| CtorCase::Build { kind, c, r, delta, tracked }),
+            4 => (kind, any_dim(), any_dim(), prop_oneof![5 => Just(0i8), 1 => Just(-1i8), 1 => Just(1i8), 1 => Just(7i8), 1 => Just(-3i8)], any::<bool>(), prop::bool::weighted(0.15)).prop_map(|(kind, c, r, delta, tracked, zst)| CtorCase::Build { kind, c, r, delta, tracked, zst }),
             3 => (0u8..=12, 0u8..=12, small_margin(), any::<bool>(), prop::option::weighted(0.3, small_margin()), any::<bool>()).prop_map(|(cols, rows, m, mutable, nested, tracked)| CtorCase::FromView { cols, rows, m, mutable, nested, tracked }),
             2 => (0u8..=12, 0u8..=12, conv, (0u8..8, 0u8..8), any::<bool>()).prop_map(|(cols, rows, what, take, tracked)| CtorCase::Convert { cols, rows, what, take, tracked }),
             3 => (0u8..=12, 0u8..=12, variant).prop_map(|(cols, rows, variant)| CtorCase::EqHash { cols, rows, variant }),
